@@ -293,6 +293,10 @@ func evalC16Compile(k c16Case) []pbt.Violation {
 						if strings.HasPrefix(path, filepath.Join(dir, od)) || strings.HasPrefix(path, od) {
 							inOut = true
 						}
+						// creating a requested directory creates its missing parents first
+						if strings.Contains(line, "mkdir") && (strings.HasPrefix(filepath.Clean(od)+"/", filepath.Clean(path)+"/") || strings.HasPrefix(filepath.Join(dir, od)+"/", filepath.Clean(path)+"/")) {
+							inOut = true
+						}
 					}
 					if inOut || strings.HasPrefix(path, "/dev/") || strings.HasPrefix(path, "/proc/") || path == traceFile {
 						continue
